@@ -14,12 +14,44 @@ type intvCase struct {
 	Base int     `json:"base"`
 	A    [][]int `json:"a"`
 	B    [][]int `json:"b"`
+	Init [][][]int `json:"init"` // snew: the initial maps of a session
+	X    int     `json:"x"`      // s<op>: indices of the argument maps
+	Y    int     `json:"y"`
 }
 
 type intvEvent struct {
 	intvCase
-	Ivs   [][]int `json:"ivs"`
-	Panic string  `json:"panic"`
+	Ivs   [][]int   `json:"ivs"`
+	Maps  [][][]int `json:"maps"` // session ops: every map of the session re-read after the operation
+	Panic string    `json:"panic"`
+}
+
+// a session keeps the Map values alive: an operation may neither change its arguments nor any earlier result
+type intvSession[T int64 | uint64] struct {
+	base T
+	maps []interval.Map[T]
+}
+
+func (s *intvSession[T]) run(c intvCase, ev *intvEvent) {
+	switch c.Op {
+	case "snew":
+		s.maps = nil
+		for _, l := range c.Init {
+			s.maps = append(s.maps, interval.NewMap(mkIntvs(l, s.base)...))
+		}
+	case "sunion":
+		s.maps = append(s.maps, interval.MapUnion(s.maps[c.X], s.maps[c.Y]))
+	case "scomplement":
+		s.maps = append(s.maps, interval.MapComplement(s.maps[c.X], s.maps[c.Y]))
+	case "sintersect":
+		s.maps = append(s.maps, interval.MapIntersect(s.maps[c.X], s.maps[c.Y]))
+	default:
+		panic("harness: unknown interval session op " + c.Op)
+	}
+	ev.Maps = [][][]int{}
+	for _, m := range s.maps {
+		ev.Maps = append(ev.Maps, outIntvs(m, s.base))
+	}
 }
 
 func mkIntvs[T int64 | uint64](l [][]int, base T) []interval.Interval[T] {
@@ -52,6 +84,11 @@ func runIntv[T int64 | uint64](c intvCase, base T) [][]int {
 	panic("harness: unknown interval op " + c.Op)
 }
 
+var (
+	sessI *intvSession[int64]
+	sessU *intvSession[uint64]
+)
+
 func init() {
 	register("intv", func(raw json.RawMessage, emit func(any)) {
 		var c intvCase
@@ -64,7 +101,28 @@ func init() {
 		if c.B == nil {
 			c.B = [][]int{}
 		}
-		ev := intvEvent{intvCase: c, Ivs: [][]int{}}
+		if c.Init == nil {
+			c.Init = [][][]int{}
+		}
+		ev := intvEvent{intvCase: c, Ivs: [][]int{}, Maps: [][][]int{}}
+		if len(c.Op) > 0 && c.Op[0] == 's' {
+			ev.Panic = guard(func() {
+				if c.T == "i64" {
+					if c.Op == "snew" {
+						sessI = &intvSession[int64]{base: int64(c.Base)}
+					}
+					sessI.run(c, &ev)
+				} else {
+					bs := []uint64{0, 1<<32 - 3, 1<<63 - 4, ^uint64(0) - 63}
+					if c.Op == "snew" {
+						sessU = &intvSession[uint64]{base: bs[c.Base]}
+					}
+					sessU.run(c, &ev)
+				}
+			})
+			emit(ev)
+			return
+		}
 		ev.Panic = guard(func() {
 			if c.T == "i64" {
 				ev.Ivs = runIntv(c, int64(c.Base))
